@@ -40,6 +40,7 @@ Definition op_valid (o : op) : Prop :=
 Definition out_ok (x : out) : Prop :=
   match x with
   | OAdd (Ret _) _ => True
+  | OAdd ErrProbe _ => True          (* the probe's own exception; only with a PLocalFail outcome, see C11_probe_error_only_local *)
   | ORemove true => True
   | _ => False
   end.
@@ -70,6 +71,14 @@ Definition exact_closest (own : N) (sender : option N) (t : table) (key : N) (c 
 Definition sop_valid (o : sop) : Prop :=
   match o with
   | SAdd p _ => pid p < M
+  | SAddReal p _ _ => pid p < M
   | SRemove p => pid p < M
+  | _ => True
+  end.
+
+(* no probe outcome of this operation is a local failure *)
+Definition op_nofail (o : op) : Prop :=
+  match o with
+  | Add _ e => forall q, probe e q <> PLocalFail
   | _ => True
   end.
